@@ -59,7 +59,7 @@ def gen_doc(r, size, nsmode, xmlspace=False, exotic=True):
     def other_text():
         c = r.random()
         if c < 0.5 or not exotic:
-            data = r.choice(["x", "y", "w z", "xx", " x", "y ", " w ", "x\ny"])
+            data = r.choice(["x", "y", "w z", "xx", " x", "y ", " w ", "x\ny", "1", "2", "7", "1", " 3"])
         elif c < 0.8:
             # not XML whitespace: never stripped (NBSP, EM SPACE, NEL, LINE SEPARATOR, ZERO WIDTH SPACE, IDEOGRAPHIC SPACE)
             data = r.choice(["\u00a0", "\u2003", "\u0085", "\u2028", "\u200b", "\u3000", " \u00a0 ", "\u00a0\u00a0"])
@@ -392,7 +392,9 @@ BLOCKS = [
     ("sort", "",
      '<xsl:for-each select="//*"><xsl:sort select="."/><xsl:sort select="@id"/><xsl:value-of select="@id"/>,</xsl:for-each>|'
      '<xsl:for-each select="//*"><xsl:sort select="count(node())" data-type="number"/><xsl:sort select="string-length(.)" data-type="number" order="descending"/>'
-     '<xsl:sort select="@id"/><xsl:value-of select="@id"/>,</xsl:for-each>|<xsl:for-each select="//text()"><xsl:sort select="." order="descending"/><xsl:value-of select="%s"/>,</xsl:for-each>' % (TR % ".")),
+     '<xsl:sort select="@id"/><xsl:value-of select="@id"/>,</xsl:for-each>|<xsl:for-each select="//*"><xsl:sort/><xsl:sort select="@id"/><xsl:value-of select="@id"/>,</xsl:for-each>|'
+     '<xsl:for-each select="//*"><xsl:sort data-type="number"/><xsl:sort select="@id"/><xsl:value-of select="@id"/>,</xsl:for-each>|'
+     '<xsl:for-each select="//*"><xsl:sort select="number(.)" data-type="number"/><xsl:sort select="@id"/><xsl:value-of select="@id"/>,</xsl:for-each>|<xsl:for-each select="//text()"><xsl:sort select="." order="descending"/><xsl:value-of select="%s"/>,</xsl:for-each>' % (TR % ".")),
     ("document",
      '<xsl:key name="dkt" match="text()" use="string-length(.)"/>',
      '<xsl:value-of select="count(document(\'d2.xml\')//text())"/>/<xsl:value-of select="count(document(\'d2.xml\')//node())"/>|<xsl:copy-of select="document(\'d2.xml\')"/>|'
